@@ -1,62 +1,211 @@
 //! C09 — k-means: nearest-centroid assignment, Lloyd step, budgets, restarts.
 //!
-//! Ops (model counterpart in `lean/LinfaSpec/Drv/C09.lean`):
+//! Ops (model counterpart in `lean/LinfaSpec/Drv/C09.lean`); every op exists for f64 and — with
+//! the token `prec=32` and 8-hex-digit floats — for f32 (the driver runs the same model on `Float32`):
 //!   closest  metric C x            hook `closest_centroid`
 //!   update   C X mem               hook `compute_centroids`
-//!   fit      metric X init m tol Q public API (`Precomputed`, `n_runs(1)`), then predict/transform on X++Q
+//!   fit      metric X init m tol Q public API (`Precomputed`, `n_runs(1)`) on a training matrix in one of five
+//!                                  memory layouts, then every calling form of predict / transform on X++Q
 //!   traj     metric X init M tol   public API for budgets 1..M from one initial matrix
 //!   restarts metric X inits k m tol  public API with a random initialiser and `n_runs(r)`, r = 1..R;
 //!                                  the initial matrices of the runs are observed through the hook `init_run`
-//!   #f32     …                     oracle only (f32 records)
+//!   sweep    metric X inits k ms tol  public API with `n_runs(R)` (R = number of initial matrices, random
+//!                                  initialiser, fixed seed) for every budget in `ms`; also used for the
+//!                                  constructors `KMeans::params` / `params_with_rng` with their default
+//!                                  hyper-parameters (read back from the checked parameter set)
+//!   #lp      …                     oracle only: `LpDist(p)` (goes through libm `powf`)
 //! Everything numeric is sent as IEEE bit patterns; centroids, distances, memberships and counts are
 //! compared exactly: the model performs the same operations in the same order, including the
 //! eight-fold unrolled `ndarray::sum` behind the inertia, so the restart selection is exact too.
+//! The oracle recomputes the statement's predicates from first principles and is tie-aware: where two
+//! centroids are equally near, any of them is accepted (the statement promises *a* nearest centroid).
 use crate::util::*;
-use linfa::traits::{Fit, Predict, Transformer};
-use linfa::DatasetBase;
+use linfa::traits::{Fit, Predict, PredictInplace, Transformer};
+use linfa::{DatasetBase, ParamGuard};
 use linfa_clustering::verif_hooks_c09 as hooks;
 use linfa_clustering::{KMeans, KMeansInit};
-use linfa_nn::distance::{Distance, L1Dist, L2Dist, LInfDist};
-use ndarray::{Array1, Array2, Axis};
+use linfa_nn::distance::{Distance, L1Dist, L2Dist, LInfDist, LpDist};
+use ndarray::{s, Array1, Array2, ArrayView2, Axis, ShapeBuilder};
 use rand::SeedableRng;
 use rand_xoshiro::Xoshiro256Plus;
+use std::cell::Cell;
+use std::panic::{catch_unwind, AssertUnwindSafe};
+
+// ------------------------------------------------------------------------------ scalars
+
+trait Sc: linfa::Float {
+    const PREC: u32;
+    fn of(v: f64) -> Self;
+    fn to(self) -> f64;
+    fn hx(self) -> String;
+    /// machine epsilon
+    fn eps() -> f64;
+    /// relative slack granted to a recomputed sum of up to a few hundred terms
+    fn rel() -> f64;
+    /// magnitudes next to the ends of the range on which squared distances still neither overflow nor
+    /// (for the upper two) lose everything
+    fn extreme_scales() -> [f64; 4];
+    /// smallest positive value (a tolerance that only an exactly-zero shift satisfies)
+    fn tiny() -> Self;
+    /// initial position for the long-budget cases: halving it `m` times stays non-zero for m <= 260
+    fn long_start() -> Self;
+}
+impl Sc for f64 {
+    const PREC: u32 = 64;
+    fn of(v: f64) -> f64 {
+        v
+    }
+    fn to(self) -> f64 {
+        self
+    }
+    fn hx(self) -> String {
+        hex64(self)
+    }
+    fn eps() -> f64 {
+        f64::EPSILON
+    }
+    fn rel() -> f64 {
+        1e-12
+    }
+    fn extreme_scales() -> [f64; 4] {
+        [1e-170, 1e-150, 1e140, 1e145]
+    }
+    fn tiny() -> f64 {
+        f64::from_bits(1)
+    }
+    fn long_start() -> f64 {
+        1.0
+    }
+}
+impl Sc for f32 {
+    const PREC: u32 = 32;
+    fn of(v: f64) -> f32 {
+        v as f32
+    }
+    fn to(self) -> f64 {
+        self as f64
+    }
+    fn hx(self) -> String {
+        hex32(self)
+    }
+    fn eps() -> f64 {
+        f32::EPSILON as f64
+    }
+    fn rel() -> f64 {
+        1e-4
+    }
+    fn extreme_scales() -> [f64; 4] {
+        [1e-25, 1e-18, 1e15, 1e16]
+    }
+    fn tiny() -> f32 {
+        f32::from_bits(1)
+    }
+    fn long_start() -> f32 {
+        f32::from_bits(0x7b80_0000) // 2^120
+    }
+}
+fn hxc<F: Sc>(v: F) -> String {
+    if v.is_nan() {
+        "nan".into()
+    } else {
+        v.hx()
+    }
+}
+fn prec_tok<F: Sc>() -> &'static str {
+    if F::PREC == 32 {
+        " prec=32"
+    } else {
+        ""
+    }
+}
+/// configuration class of an f32 case: the f64 class with a suffix
+fn cls<F: Sc>(s: String) -> String {
+    if F::PREC == 32 {
+        s + ":f32"
+    } else {
+        s
+    }
+}
+
+// ------------------------------------------------------------------------------ metrics
 
 #[derive(Clone, Copy, PartialEq, Debug)]
 enum Metric {
     L1,
     L2,
     Linf,
+    /// `LpDist(p)`: oracle only
+    Lp(f64),
 }
 impl Metric {
-    fn name(self) -> &'static str {
+    fn name(self) -> String {
         match self {
-            Metric::L1 => "l1",
-            Metric::L2 => "l2",
-            Metric::Linf => "linf",
+            Metric::L1 => "l1".into(),
+            Metric::L2 => "l2".into(),
+            Metric::Linf => "linf".into(),
+            Metric::Lp(p) => format!("lp{}", p),
         }
     }
     /// reduced distance, written out from the definition
-    fn rd(self, a: &[f64], b: &[f64]) -> f64 {
+    fn rd<F: Sc>(self, a: &[F], b: &[F]) -> F {
         match self {
-            Metric::L2 => a.iter().zip(b).fold(0.0, |s, (x, y)| s + (x - y) * (x - y)),
-            Metric::L1 => a.iter().zip(b).fold(0.0, |s, (x, y)| s + (x - y).abs()),
-            Metric::Linf => a.iter().zip(b).fold(0.0, |s: f64, (x, y)| if (x - y).abs() > s { (x - y).abs() } else { s }),
+            Metric::L2 => a.iter().zip(b).fold(F::zero(), |s, (x, y)| s + (*x - *y) * (*x - *y)),
+            Metric::L1 => a.iter().zip(b).fold(F::zero(), |s, (x, y)| s + (*x - *y).abs()),
+            Metric::Linf => a.iter().zip(b).fold(F::zero(), |s: F, (x, y)| if (*x - *y).abs() > s { (*x - *y).abs() } else { s }),
+            Metric::Lp(p) => {
+                let pp = F::of(p);
+                a.iter().zip(b).fold(F::zero(), |s, (x, y)| s + (*x - *y).abs().powf(pp)).powf(F::one() / pp)
+            }
         }
+    }
+    /// relative slack of a recomputed reduced distance over `p` coordinates (zero on lattice data, where
+    /// every operation is exact and the slack multiplies an exact value that either ties or does not)
+    fn slack<F: Sc>(self, p: usize, d: F) -> F {
+        let ulps = match self {
+            Metric::Lp(_) => 64.0,
+            _ => 4.0,
+        };
+        F::of(ulps * F::eps() * (p as f64 + 1.0)) * d.abs()
     }
 }
 const METRICS: [Metric; 3] = [Metric::L2, Metric::L1, Metric::Linf];
 
-fn mat(rows: &[Vec<f64>]) -> Array2<f64> {
-    let p = rows.first().map(|r| r.len()).unwrap_or(0);
+macro_rules! with_dist {
+    ($metric:expr, $F:ty, |$d:ident| $body:expr) => {
+        match $metric {
+            Metric::L2 => {
+                let $d = L2Dist;
+                $body
+            }
+            Metric::L1 => {
+                let $d = L1Dist;
+                $body
+            }
+            Metric::Linf => {
+                let $d = LInfDist;
+                $body
+            }
+            Metric::Lp(p) => {
+                let $d = LpDist(<$F as Sc>::of(p));
+                $body
+            }
+        }
+    };
+}
+
+// ------------------------------------------------------------------------------ matrices and layouts
+
+fn mat<F: Sc>(rows: &[Vec<F>], p: usize) -> Array2<F> {
     Array2::from_shape_fn((rows.len(), p), |(i, j)| rows[i][j])
 }
-fn rows_of(a: &Array2<f64>) -> Vec<Vec<f64>> {
+fn rows_of<F: Sc>(a: &Array2<F>) -> Vec<Vec<F>> {
     a.rows().into_iter().map(|r| r.to_vec()).collect()
 }
-fn show_mat(rows: &[Vec<f64>]) -> String {
-    list2(rows.iter().map(|r| r.iter()), |x| hex64(*x))
+fn show_mat<F: Sc>(rows: &[Vec<F>]) -> String {
+    list2(rows.iter().map(|r| r.iter()), |x| x.hx())
 }
-fn show_count(c: f64) -> String {
+fn show_count<F: Sc>(c: F) -> String {
+    let c = c.to();
     if c.is_finite() && c >= 0.0 && c.fract() == 0.0 {
         format!("{}", c as u64)
     } else {
@@ -64,26 +213,101 @@ fn show_count(c: f64) -> String {
     }
 }
 
+/// memory layout in which a matrix is handed to linfa (the logical content is always the same)
+#[derive(Clone, Copy, PartialEq, Debug)]
+enum Lay {
+    /// owned, row-major, contiguous
+    C,
+    /// column-major (Fortran order; what `x.t()` of a row-major matrix looks like)
+    Fo,
+    /// every second row of a taller matrix (`slice(s![..;2, ..])`)
+    RowStrided,
+    /// every second column of a wider matrix (rows are not contiguous)
+    ColStrided,
+    /// negative row stride (`slice(s![..;-1, ..])` of the reversed matrix)
+    Reversed,
+}
+const LAYS: [Lay; 5] = [Lay::C, Lay::Fo, Lay::RowStrided, Lay::ColStrided, Lay::Reversed];
+impl Lay {
+    fn name(self) -> &'static str {
+        match self {
+            Lay::C => "C",
+            Lay::Fo => "F",
+            Lay::RowStrided => "rowstride",
+            Lay::ColStrided => "colstride",
+            Lay::Reversed => "reversed",
+        }
+    }
+}
+/// backing storage of a laid-out matrix; the gaps of the strided layouts hold NaN, so code that walks
+/// the memory instead of the logical rows is noticed
+struct Laid<F: Sc> {
+    store: Array2<F>,
+    lay: Lay,
+}
+impl<F: Sc> Laid<F> {
+    fn new(x: &Array2<F>, lay: Lay) -> Self {
+        let (n, p) = x.dim();
+        let store = match lay {
+            Lay::C => x.clone(),
+            Lay::Fo => {
+                let mut a = Array2::zeros((n, p).f());
+                a.assign(x);
+                a
+            }
+            Lay::RowStrided => {
+                let mut a = Array2::from_elem((2 * n, p), F::nan());
+                a.slice_mut(s![..;2, ..]).assign(x);
+                a
+            }
+            Lay::ColStrided => {
+                let mut a = Array2::from_elem((n, 2 * p), F::nan());
+                a.slice_mut(s![.., ..;2]).assign(x);
+                a
+            }
+            Lay::Reversed => x.slice(s![..;-1, ..]).to_owned(),
+        };
+        Laid { store, lay }
+    }
+    fn view(&self) -> ArrayView2<'_, F> {
+        match self.lay {
+            Lay::C | Lay::Fo => self.store.view(),
+            Lay::RowStrided => self.store.slice(s![..;2, ..]),
+            Lay::ColStrided => self.store.slice(s![.., ..;2]),
+            Lay::Reversed => self.store.slice(s![..;-1, ..]),
+        }
+    }
+}
+
+// ------------------------------------------------------------------------------ calling linfa
+
 /// what one call of the public API yields
-struct FitOut {
-    centroids: Vec<Vec<f64>>,
-    counts: Vec<f64>,
-    inertia: f64,
+struct FitOut<F: Sc> {
+    centroids: Vec<Vec<F>>,
+    counts: Vec<F>,
+    inertia: F,
+    /// `predict(&matrix)` on X++Q
     pred: Vec<usize>,
     /// the same rows predicted one observation at a time (the `Ix1` form of `predict`)
     pred1: Vec<usize>,
-    tr: Vec<f64>,
+    /// `predict_inplace` on a caller-supplied buffer that held 7777 everywhere
+    inplace: Vec<usize>,
+    tr: Vec<F>,
+    /// the other calling forms of `predict`: matrix by value, `DatasetBase` by value, `&DatasetBase`
+    forms: Vec<(&'static str, Vec<usize>)>,
+    /// `predict_inplace` with a buffer one cell short: "panic" (the documented assert), "accepted", "n/a"
+    short_buf: &'static str,
 }
 
 #[derive(Clone)]
-enum Init {
-    Pre(Array2<f64>),
+enum Init<F: Sc> {
+    Pre(Array2<F>),
     Random,
     Kpp,
     Para,
 }
-impl Init {
-    fn to_linfa(&self) -> KMeansInit<f64> {
+impl<F: Sc> Init<F> {
+    fn to_linfa(&self) -> KMeansInit<F> {
         match self {
             Init::Pre(c) => KMeansInit::Precomputed(c.clone()),
             Init::Random => KMeansInit::Random,
@@ -100,115 +324,267 @@ impl Init {
         }
     }
 }
+fn init_name<F: Sc>(i: &KMeansInit<F>) -> &'static str {
+    match i {
+        KMeansInit::Precomputed(_) => "precomputed",
+        KMeansInit::Random => "random",
+        KMeansInit::KMeansPlusPlus => "kmeans++",
+        KMeansInit::KMeansPara => "kmeans||",
+        #[allow(unreachable_patterns)]
+        _ => "other",
+    }
+}
 
-fn fit_with<D: Distance<f64>>(d: D, k: usize, x: &Array2<f64>, q: &Array2<f64>, init: &Init, runs: usize, m: u64, tol: f64, seed: u64) -> Option<FitOut> {
-    let ds = DatasetBase::from(x.clone());
-    let model = KMeans::params_with(k, Xoshiro256Plus::seed_from_u64(seed), d).n_runs(runs).max_n_iterations(m).tolerance(tol).init_method(init.to_linfa()).fit(&ds);
-    let model = match model {
-        Ok(m) => m,
-        Err(_) => return None,
-    };
+/// everything the fitted model is asked afterwards, in every calling form
+fn observe<F: Sc, D: Distance<F>>(model: &KMeans<F, D>, x: &Array2<F>, q: &Array2<F>, lay_q: Lay) -> FitOut<F> {
     let all = if q.nrows() > 0 { ndarray::concatenate(Axis(0), &[x.view(), q.view()]).unwrap() } else { x.clone() };
-    let pred: Array1<usize> = model.predict(&all);
-    let tr: Array1<f64> = model.transform(&all);
-    let pred1: Vec<usize> = all.rows().into_iter().map(|r| model.predict(&r.to_owned())).collect();
-    Some(FitOut { centroids: rows_of(model.centroids()), counts: model.cluster_count().to_vec(), inertia: model.inertia(), pred: pred.to_vec(), pred1, tr: tr.to_vec() })
-}
-fn fit_api(metric: Metric, k: usize, x: &Array2<f64>, q: &Array2<f64>, init: &Init, runs: usize, m: u64, tol: f64, seed: u64) -> Option<FitOut> {
-    match metric {
-        Metric::L2 => fit_with(L2Dist, k, x, q, init, runs, m, tol, seed),
-        Metric::L1 => fit_with(L1Dist, k, x, q, init, runs, m, tol, seed),
-        Metric::Linf => fit_with(LInfDist, k, x, q, init, runs, m, tol, seed),
-    }
-}
-fn inits_with<D: Distance<f64>>(d: D, k: usize, x: &Array2<f64>, init: &Init, runs: usize, seed: u64) -> Vec<Array2<f64>> {
-    // `fit` clones the rng once and calls the initialiser once per run; nothing else draws from it
-    let mut rng = Xoshiro256Plus::seed_from_u64(seed);
-    let li = init.to_linfa();
-    (0..runs).map(|_| hooks::init_run(&li, &d, k, x.view(), &mut rng)).collect()
-}
-fn inits_api(metric: Metric, k: usize, x: &Array2<f64>, init: &Init, runs: usize, seed: u64) -> Vec<Array2<f64>> {
-    match metric {
-        Metric::L2 => inits_with(L2Dist, k, x, init, runs, seed),
-        Metric::L1 => inits_with(L1Dist, k, x, init, runs, seed),
-        Metric::Linf => inits_with(LInfDist, k, x, init, runs, seed),
+    let laid = Laid::new(&all, lay_q);
+    let av = laid.view();
+    let pred: Array1<usize> = model.predict(&av);
+    let tr: Array1<F> = model.transform(&av);
+    let pred1: Vec<usize> = av
+        .rows()
+        .into_iter()
+        .map(|r| {
+            let a: usize = model.predict(&r);
+            a
+        })
+        .collect();
+    let mut buf = Array1::from_elem(av.nrows(), 7777usize);
+    model.predict_inplace(&av, &mut buf);
+    let by_value: DatasetBase<ArrayView2<F>, Array1<usize>> = model.predict(av.clone());
+    let ds_in = DatasetBase::from(av.clone());
+    let by_ds_ref: Array1<usize> = model.predict(&ds_in);
+    let by_ds: DatasetBase<ArrayView2<F>, Array1<usize>> = model.predict(ds_in);
+    let short_buf = if av.nrows() >= 1 {
+        let mut b = Array1::from_elem(av.nrows() - 1, 0usize);
+        match catch_unwind(AssertUnwindSafe(|| model.predict_inplace(&av, &mut b))) {
+            Err(_) => "panic",
+            Ok(_) => "accepted",
+        }
+    } else {
+        "n/a"
+    };
+    FitOut {
+        centroids: rows_of(model.centroids()),
+        counts: model.cluster_count().to_vec(),
+        inertia: model.inertia(),
+        pred: pred.to_vec(),
+        pred1,
+        inplace: buf.to_vec(),
+        tr: tr.to_vec(),
+        forms: vec![("matrix_by_value", by_value.targets().to_vec()), ("dataset_by_value", by_ds.targets().to_vec()), ("dataset_by_ref", by_ds_ref.to_vec())],
+        short_buf,
     }
 }
 
-fn bbox(x: &[Vec<f64>]) -> Vec<(f64, f64)> {
-    let p = x[0].len();
-    (0..p).map(|j| x.iter().fold((f64::INFINITY, f64::NEG_INFINITY), |(lo, hi), r| (lo.min(r[j]), hi.max(r[j])))).collect()
+struct Req<'a, F: Sc> {
+    metric: Metric,
+    k: usize,
+    x: &'a Array2<F>,
+    q: &'a Array2<F>,
+    init: &'a Init<F>,
+    runs: usize,
+    m: u64,
+    tol: F,
+    seed: u64,
+    lay_x: Lay,
+    lay_q: Lay,
 }
-fn in_bbox(bb: &[(f64, f64)], c: &[Vec<f64>]) -> bool {
+
+fn fit_with<F: Sc, D: Distance<F>>(d: D, r: &Req<F>) -> Option<FitOut<F>> {
+    let laid = Laid::new(r.x, r.lay_x);
+    let ds = DatasetBase::from(laid.view());
+    let model = KMeans::params_with(r.k, Xoshiro256Plus::seed_from_u64(r.seed), d).n_runs(r.runs).max_n_iterations(r.m).tolerance(r.tol).init_method(r.init.to_linfa()).fit(&ds);
+    match model {
+        Ok(m) => Some(observe(&m, r.x, r.q, r.lay_q)),
+        Err(_) => None,
+    }
+}
+fn fit_api<F: Sc>(r: &Req<F>) -> Option<FitOut<F>> {
+    with_dist!(r.metric, F, |d| fit_with(d, r))
+}
+/// the simple form used by most ops: row-major everything
+fn fit_plain<F: Sc>(metric: Metric, k: usize, x: &Array2<F>, q: &Array2<F>, init: &Init<F>, runs: usize, m: u64, tol: F, seed: u64) -> Option<FitOut<F>> {
+    fit_api(&Req { metric, k, x, q, init, runs, m, tol, seed, lay_x: Lay::C, lay_q: Lay::C })
+}
+fn inits_api<F: Sc>(metric: Metric, k: usize, x: &Array2<F>, init: &KMeansInit<F>, runs: usize, mut rng: Xoshiro256Plus) -> Vec<Array2<F>> {
+    // `fit` clones the rng once and calls the initialiser once per run; nothing else draws from it
+    with_dist!(metric, F, |d| (0..runs).map(|_| hooks::init_run(init, &d, k, x.view(), &mut rng)).collect())
+}
+/// `Distance::distance` between two matrices, by linfa's own implementation (used only to place a
+/// tolerance exactly on a shift)
+fn mdist<F: Sc>(metric: Metric, a: &Array2<F>, b: &Array2<F>) -> F {
+    with_dist!(metric, F, |d| d.distance(a.view(), b.view()))
+}
+
+// ------------------------------------------------------------------------------ oracle
+
+fn bbox<F: Sc>(x: &[Vec<F>]) -> Vec<(F, F)> {
+    let p = x[0].len();
+    (0..p).map(|j| x.iter().fold((F::infinity(), F::neg_infinity()), |(lo, hi), r| (lo.min(r[j]), hi.max(r[j])))).collect()
+}
+fn in_bbox<F: Sc>(bb: &[(F, F)], c: &[Vec<F>]) -> bool {
+    let rel = if F::PREC == 32 { 1e-5 } else { 1e-12 };
     c.iter().all(|r| {
         r.iter().zip(bb).all(|(v, (lo, hi))| {
-            let slack = 1e-12 * (lo.abs().max(hi.abs())) + 1e-300;
-            *v >= lo - slack && *v <= hi + slack
+            let slack = F::of(rel) * (lo.abs().max(hi.abs())) + F::min_positive_value();
+            *v >= *lo - slack && *v <= *hi + slack
         })
     })
 }
-/// Σ over rows of the distance to the nearest centroid
-fn cost_of(metric: Metric, c: &[Vec<f64>], x: &[Vec<f64>]) -> f64 {
-    x.iter().map(|r| c.iter().map(|cc| metric.rd(cc, r)).fold(f64::INFINITY, f64::min)).sum()
+/// Σ over rows of the distance to the nearest centroid (accumulated in f64)
+fn cost_of<F: Sc>(metric: Metric, c: &[Vec<F>], x: &[Vec<F>]) -> f64 {
+    x.iter().map(|r| c.iter().map(|cc| metric.rd(cc, r)).fold(F::infinity(), |a, b| a.min(b)).to()).sum()
+}
+
+/// the centroids at minimal reduced distance of a row: (all distances, minimum, indices within slack)
+fn nearest<F: Sc>(metric: Metric, c: &[Vec<F>], r: &[F]) -> (Vec<F>, F, Vec<usize>) {
+    let ds: Vec<F> = c.iter().map(|cc| metric.rd(cc, r)).collect();
+    let dmin = ds.iter().cloned().fold(F::infinity(), |a, b| a.min(b));
+    let sl = metric.slack(r.len(), dmin);
+    let tied: Vec<usize> = (0..ds.len()).filter(|j| ds[*j] <= dmin + sl).collect();
+    (ds, dmin, tied)
 }
 
 /// the clauses of the statement that speak about one fitted model
-fn oracle_fitted(ctx: &mut Ctx, class: &str, metric: Metric, k: usize, x: &[Vec<f64>], q: &[Vec<f64>], o: &FitOut, init_in_bbox: bool) {
+fn oracle_fitted<F: Sc>(ctx: &mut Ctx, class: &str, metric: Metric, k: usize, x: &[Vec<F>], q: &[Vec<F>], o: &FitOut<F>, init_in_bbox: bool) {
     let n = x.len();
     let p = x[0].len();
     ctx.require(o.centroids.len() == k && o.centroids.iter().all(|r| r.len() == p), "k_centroids_dim", class, || format!("{} centroids for k={} p={}", o.centroids.len(), k, p));
     ctx.require(o.centroids.iter().flatten().all(|v| v.is_finite()), "finite", class, || format!("centroids {:?}", o.centroids));
+    if o.centroids.len() != k || o.centroids.iter().any(|r| r.len() != p) {
+        return;
+    }
     if init_in_bbox {
         let bb = bbox(x);
         ctx.require(in_bbox(&bb, &o.centroids), "centroids_in_bbox", class, || format!("centroids {:?} outside the bounding box {:?}", o.centroids, bb));
     }
-    let all: Vec<&Vec<f64>> = x.iter().chain(q.iter()).collect();
-    ctx.require(o.pred.len() == all.len() && o.tr.len() == all.len(), "per_row_output", class, || format!("{} predictions / {} distances for {} rows", o.pred.len(), o.tr.len(), all.len()));
-    for (i, r) in all.iter().enumerate().take(o.pred.len().min(o.tr.len())) {
-        let ds: Vec<f64> = o.centroids.iter().map(|c| metric.rd(c, r)).collect();
-        let dmin = ds.iter().cloned().fold(f64::INFINITY, f64::min);
-        let a = o.pred[i];
-        ctx.require(a < k && ds[a] <= dmin, "assign_is_argmin", class, || format!("row {} {:?} ({}): assigned {} at {:?}, minimum {:?} (all {:?})", i, r, if i < n { "training" } else { "new" }, a, ds.get(a), dmin, ds));
-        if let Some(a1) = o.pred1.get(i) {
-            ctx.require(*a1 < k && ds[*a1] <= dmin, "assign_is_argmin", &format!("{}:form=single_observation", class), || format!("row {} {:?} predicted alone: assigned {} at {:?}, minimum {:?} under the model's metric (all {:?})", i, r, a1, ds.get(*a1), dmin, ds));
-            ctx.require(*a1 == a, "single_observation_same_as_batch", class, || format!("row {} {:?}: predicted alone -> {}, inside the batch -> {}", i, r, a1, a));
-        }
-        ctx.require(o.tr[i] == dmin, "transform_is_min_rdist", class, || format!("row {} {:?}: transform {:?}, minimal reduced distance {:?}", i, r, o.tr[i], dmin));
+    let all: Vec<&Vec<F>> = x.iter().chain(q.iter()).collect();
+    let na = all.len();
+    ctx.require(o.pred.len() == na && o.tr.len() == na && o.pred1.len() == na, "per_row_output", class, || format!("{} predictions / {} single predictions / {} distances for {} rows", o.pred.len(), o.pred1.len(), o.tr.len(), na));
+    ctx.require(o.inplace.len() == na && o.inplace.iter().all(|a| *a != 7777), "per_row_output", &format!("{}:form=predict_inplace", class), || format!("predict_inplace on a caller's buffer left cells unwritten: {:?}", o.inplace));
+    ctx.require(o.short_buf != "accepted", "per_row_output", &format!("{}:form=predict_inplace_short_buffer", class), || format!("predict_inplace accepted a buffer of {} cells for {} observations: some observation is left without a cluster", na.saturating_sub(1), na));
+    for (name, v) in &o.forms {
+        ctx.require(v.len() == na, "per_row_output", &format!("{}:form={}", class, name), || format!("{} predictions for {} rows", v.len(), na));
     }
-    let mut recount = vec![0.0f64; k];
-    for a in o.pred.iter().take(n) {
-        if *a < k {
-            recount[*a] += 1.0;
+    let mut lo = vec![0usize; k];
+    let mut hi = vec![0usize; k];
+    let mut trsum = 0.0f64;
+    for (i, r) in all.iter().enumerate() {
+        let (ds, dmin, tied) = nearest(metric, &o.centroids, r);
+        let which = if i < n { "training" } else { "new" };
+        let is_min = |a: usize| a < k && tied.contains(&a);
+        if let Some(a) = o.pred.get(i) {
+            ctx.require(is_min(*a), "assign_is_argmin", class, || format!("row {} {:?} ({}): assigned {} at {:?}, minimum {:?} (all {:?})", i, r, which, a, ds.get(*a), dmin, ds));
+            if let Some(a1) = o.pred1.get(i) {
+                ctx.require(is_min(*a1), "assign_is_argmin", &format!("{}:form=single_observation", class), || format!("row {} {:?} predicted alone: assigned {} at {:?}, minimum {:?} under the model's metric (all {:?})", i, r, a1, ds.get(*a1), dmin, ds));
+            }
+            if let Some(a2) = o.inplace.get(i) {
+                ctx.require(is_min(*a2), "assign_is_argmin", &format!("{}:form=predict_inplace", class), || format!("row {} {:?} through predict_inplace: assigned {} at {:?}, minimum {:?} (all {:?})", i, r, a2, ds.get(*a2), dmin, ds));
+            }
+            for (name, v) in &o.forms {
+                if let Some(a3) = v.get(i) {
+                    ctx.require(is_min(*a3), "assign_is_argmin", &format!("{}:form={}", class, name), || format!("row {} {:?}: assigned {} at {:?}, minimum {:?} (all {:?})", i, r, a3, ds.get(*a3), dmin, ds));
+                }
+            }
+        }
+        if let Some(t) = o.tr.get(i) {
+            // `transform` returns the minimal reduced distance (a few ulps for a differently ordered sum)
+            ctx.require((*t - dmin).abs() <= metric.slack(p, dmin), "transform_is_min_rdist", class, || format!("row {} {:?}: transform {:?}, minimal reduced distance {:?}", i, r, t, dmin));
+        }
+        if i < n {
+            trsum += dmin.to();
+            for j in &tied {
+                hi[*j] += 1;
+            }
+            if tied.len() == 1 {
+                lo[tied[0]] += 1;
+            }
         }
     }
-    ctx.require(o.counts.iter().sum::<f64>() == n as f64, "counts_sum_n", class, || format!("cluster_count {:?} for n={}", o.counts, n));
-    // the count of a cluster may legitimately differ from `predict` only through a tie between two
-    // *identical* distances; predict and fit use the same scan, so even then they agree
-    ctx.require(o.counts == recount, "counts_describe_returned", class, || format!("cluster_count {:?}, but the returned centroids assign {:?}", o.counts, recount));
-    let want = o.tr.iter().take(n).sum::<f64>() / n as f64;
-    ctx.require((o.inertia - want).abs() <= 1e-9 * want.abs().max(o.inertia.abs()) + 1e-300, "inertia_describes_returned", class, || format!("inertia {:?}, but the returned centroids have mean minimal distance {:?}", o.inertia, want));
+    let total: f64 = o.counts.iter().map(|c| c.to()).sum();
+    ctx.require(total == n as f64, "counts_sum_n", class, || format!("cluster_count {:?} for n={}", o.counts, n));
+    // cluster j holds every row whose only nearest centroid is j, and no row that has a nearer one
+    ctx.require(o.counts.len() == k && (0..k).all(|j| o.counts[j].to() >= lo[j] as f64 && o.counts[j].to() <= hi[j] as f64), "counts_describe_returned", class, || format!("cluster_count {:?}, but the returned centroids have between {:?} and {:?} nearest training rows", o.counts, lo, hi));
+    let want = trsum / n as f64;
+    let rel = if F::PREC == 32 { 1e-4 } else { 1e-9 };
+    ctx.require((o.inertia.to() - want).abs() <= rel * want.abs().max(o.inertia.to().abs()) + 1e-300 + 16.0 * F::tiny().to(), "inertia_describes_returned", class, || format!("inertia {:?}, but the returned centroids have mean minimal distance {:?}", o.inertia, want));
 }
 
-fn show_fitted(o: &Option<FitOut>) -> String {
+/// "every iteration replaces each centroid by the mean of its assigned points together with its previous
+/// position", checked on the fit with budget 1: skipped (and counted) when some row has two nearest centroids
+fn oracle_first_step<F: Sc>(ctx: &mut Ctx, class: &str, metric: Metric, x: &[Vec<F>], init: &[Vec<F>], got: &[Vec<F>]) -> bool {
+    let k = init.len();
+    let p = x[0].len();
+    let mut members: Vec<Vec<usize>> = vec![vec![]; k];
+    for (i, r) in x.iter().enumerate() {
+        let (_, _, tied) = nearest(metric, init, r);
+        if tied.len() != 1 {
+            return false;
+        }
+        members[tied[0]].push(i);
+    }
+    if got.len() != k {
+        return true;
+    }
+    for j in 0..k {
+        for t in 0..p {
+            let sum: f64 = members[j].iter().map(|i| x[*i][t].to()).sum::<f64>() + init[j][t].to();
+            let mag: f64 = members[j].iter().map(|i| x[*i][t].to().abs()).sum::<f64>() + init[j][t].to().abs();
+            let cnt = members[j].len() as f64 + 1.0;
+            let want = sum / cnt;
+            let g = got[j][t].to();
+            ctx.require((g - want).abs() <= F::rel() * mag / cnt + 1e-300, "lloyd_step_is_mean_of_assigned", class, || format!("after one iteration centroid {} coordinate {} is {:?}; the mean of its {} assigned rows and its previous position {:?} is {:?}", j, t, g, members[j].len(), init[j][t], want));
+        }
+    }
+    true
+}
+
+fn show_fitted<F: Sc>(o: &Option<FitOut<F>>) -> String {
     match o {
         None => "err".to_string(),
-        Some(o) => format!("C={} n={} in={}", show_mat(&o.centroids), list(o.counts.iter(), |c| show_count(*c)), hex64c(o.inertia)),
+        Some(o) => format!("C={} n={} in={}", show_mat(&o.centroids), list(o.counts.iter(), |c| show_count(*c)), hxc(o.inertia)),
+    }
+}
+
+/// counts `keys` when the case just emitted answered `ok …` (coverage floors hang on these)
+fn count_ok(em: &mut Em, before: usize, keys: &[String]) {
+    if em.outs.len() > before && em.outs.last().map(|s| s.starts_with("ok")).unwrap_or(false) {
+        for k in keys {
+            em.count(k);
+        }
     }
 }
 
 // ------------------------------------------------------------------------------ generators
 
-struct Data {
-    x: Vec<Vec<f64>>,
+struct Data<F: Sc> {
+    x: Vec<Vec<F>>,
     kind: &'static str,
 }
+impl<F: Sc> Data<F> {
+    fn p(&self) -> usize {
+        self.x[0].len()
+    }
+    fn arr(&self) -> Array2<F> {
+        mat(&self.x, self.p())
+    }
+}
 
-fn gen_data(rng: &mut Rng, big: bool) -> Data {
-    let kinds = ["lattice", "dyadic", "dups", "fewdistinct", "onefeature", "blobs", "cloud", "scaled"];
+/// `size`: 0 = small (n <= 12), 1 = the tier's normal maximum, 2 = wide (more rows, features and clusters)
+fn gen_data<F: Sc>(rng: &mut Rng, big: bool, size: u8) -> Data<F> {
+    let kinds = ["lattice", "dyadic", "dups", "fewdistinct", "onefeature", "blobs", "cloud", "scaled", "extreme"];
     let kind = *rng.pick(&kinds);
-    let nmax = if big { 40 } else { 12 };
+    let nmax = match (size, big) {
+        (2, false) => 64,
+        (2, true) => 300,
+        (_, true) => 40,
+        _ => 12,
+    };
     let n = 1 + rng.below(nmax);
-    let p = if kind == "onefeature" { 1 } else { 1 + rng.below(3) };
+    let pmax = if size == 2 { 8 } else { 3 };
+    let p = if kind == "onefeature" { 1 } else { 1 + rng.below(pmax) };
     let x: Vec<Vec<f64>> = match kind {
         "lattice" | "onefeature" => (0..n).map(|_| (0..p).map(|_| rng.range(-4, 4) as f64).collect()).collect(),
         "dyadic" => (0..n).map(|_| (0..p).map(|_| rng.range(-16, 16) as f64 / 4.0).collect()).collect(),
@@ -223,28 +599,34 @@ fn gen_data(rng: &mut Rng, big: bool) -> Data {
             (0..n).map(|i| cen[i % b].iter().map(|c| c + rng.unit() - 0.5).collect()).collect()
         }
         "cloud" => (0..n).map(|_| (0..p).map(|_| 2.0 * rng.unit() - 1.0).collect()).collect(),
+        "extreme" => {
+            // next to the ends of the exponent range: squared distances underflow to zero (every
+            // centroid ties) or come close to overflow without reaching it
+            let s = *rng.pick(&F::extreme_scales());
+            (0..n).map(|_| (0..p).map(|_| s * rng.range(-8, 8) as f64 / 8.0).collect()).collect()
+        }
         _ => {
             let s = 10f64.powf(12.0 * rng.unit() - 6.0);
             let off = if rng.coin() { 0.0 } else { s * rng.range(-100, 100) as f64 };
             (0..n).map(|_| (0..p).map(|_| off + s * (2.0 * rng.unit() - 1.0)).collect()).collect()
         }
     };
-    Data { x, kind }
+    Data { x: x.iter().map(|r| r.iter().map(|v| F::of(*v)).collect()).collect(), kind }
 }
 
-fn gen_k(rng: &mut Rng, d: &Data) -> usize {
+fn gen_k<F: Sc>(rng: &mut Rng, d: &Data<F>, size: u8) -> usize {
     let n = d.x.len();
     if d.kind == "fewdistinct" {
         // more clusters than distinct points whenever n allows
         return n.min(2 + rng.below(3)).max(1);
     }
-    1 + rng.below(n.min(4))
+    1 + rng.below(n.min(if size == 2 { 8 } else { 4 }))
 }
 
 /// precomputed initial matrix: data rows (in the bounding box) or arbitrary lattice points
-fn gen_init(rng: &mut Rng, d: &Data, k: usize) -> (Vec<Vec<f64>>, &'static str) {
+fn gen_init<F: Sc>(rng: &mut Rng, d: &Data<F>, k: usize) -> (Vec<Vec<F>>, &'static str) {
     let n = d.x.len();
-    let p = d.x[0].len();
+    let p = d.p();
     match rng.below(5) {
         0 | 1 => ((0..k).map(|_| d.x[rng.below(n)].clone()).collect(), "rows"),
         2 => {
@@ -256,16 +638,16 @@ fn gen_init(rng: &mut Rng, d: &Data, k: usize) -> (Vec<Vec<f64>>, &'static str) 
             let r = d.x[rng.below(n)].clone();
             ((0..k).map(|_| r.clone()).collect(), "one_row_k_times")
         }
-        _ => ((0..k).map(|_| (0..p).map(|_| rng.range(-6, 6) as f64).collect()).collect(), "free_lattice"),
+        _ => ((0..k).map(|_| (0..p).map(|_| F::of(rng.range(-6, 6) as f64)).collect()).collect(), "free_lattice"),
     }
 }
 
-fn gen_tol(rng: &mut Rng) -> f64 {
-    *rng.pick(&[1e-4, 1e-4, 1e-9, 1e-2, 0.5, 8.5])
+fn gen_tol<F: Sc>(rng: &mut Rng) -> F {
+    F::of(*rng.pick(&[1e-4, 1e-4, 1e-9, 1e-2, 0.5, 8.5]))
 }
 
-fn gen_queries(rng: &mut Rng, d: &Data, cs: &[Vec<f64>]) -> Vec<Vec<f64>> {
-    let p = d.x[0].len();
+fn gen_queries<F: Sc>(rng: &mut Rng, d: &Data<F>, cs: &[Vec<F>]) -> Vec<Vec<F>> {
+    let p = d.p();
     let nq = rng.below(5);
     (0..nq)
         .map(|_| match rng.below(4) {
@@ -273,64 +655,78 @@ fn gen_queries(rng: &mut Rng, d: &Data, cs: &[Vec<f64>]) -> Vec<Vec<f64>> {
             0 if cs.len() >= 2 => {
                 let a = &cs[rng.below(cs.len())];
                 let b = &cs[rng.below(cs.len())];
-                a.iter().zip(b).map(|(u, v)| (u + v) / 2.0).collect()
+                a.iter().zip(b).map(|(u, v)| (*u + *v) / F::of(2.0)).collect()
             }
             1 => d.x[rng.below(d.x.len())].clone(),
-            2 => (0..p).map(|_| 1e3 * rng.range(-3, 3) as f64).collect(),
-            _ => (0..p).map(|_| rng.range(-5, 5) as f64 / 2.0).collect(),
+            2 => (0..p).map(|_| F::of(1e3 * rng.range(-3, 3) as f64)).collect(),
+            _ => (0..p).map(|_| F::of(rng.range(-5, 5) as f64 / 2.0)).collect(),
         })
         .collect()
+}
+fn qmat<F: Sc>(q: &[Vec<F>], p: usize) -> Array2<F> {
+    if q.is_empty() {
+        Array2::zeros((0, p))
+    } else {
+        mat(q, p)
+    }
 }
 
 // ------------------------------------------------------------------------------ ops
 
-fn op_closest(em: &mut Em, metric: Metric, cs: Vec<Vec<f64>>, x: Vec<f64>) {
-    let op = format!("closest metric={} C={} x={}", metric.name(), show_mat(&cs), list(x.iter(), |v| hex64(*v)));
-    let class = format!("closest:metric={}", metric.name());
+fn op_closest<F: Sc>(em: &mut Em, metric: Metric, cs: Vec<Vec<F>>, x: Vec<F>) {
+    let op = format!("closest metric={} C={} x={}{}", metric.name(), show_mat(&cs), list(x.iter(), |v| v.hx()), prec_tok::<F>());
+    let class = cls::<F>(format!("closest:metric={}", metric.name()));
+    let before = em.outs.len();
     em.case_valid(op, &class, |ctx| {
-        let c = mat(&cs);
+        let c = mat(&cs, x.len());
         let xv = Array1::from(x.clone());
-        let (i, d) = match metric {
-            Metric::L2 => hooks::closest_centroid_of(&L2Dist, &c, xv.view()),
-            Metric::L1 => hooks::closest_centroid_of(&L1Dist, &c, xv.view()),
-            Metric::Linf => hooks::closest_centroid_of(&LInfDist, &c, xv.view()),
-        };
-        let ds: Vec<f64> = cs.iter().map(|r| metric.rd(r, &x)).collect();
-        let dmin = ds.iter().cloned().fold(f64::INFINITY, f64::min);
-        ctx.require(i < cs.len() && ds[i] <= dmin, "assign_is_argmin", &class, || format!("index {} at {:?}, minimum {:?} of {:?}", i, ds.get(i), dmin, ds));
-        ctx.require(d == dmin, "transform_is_min_rdist", &class, || format!("returned {:?}, minimum {:?}", d, dmin));
-        format!("ok {} {}", i, hex64c(d))
+        let (i, d) = with_dist!(metric, F, |dd| hooks::closest_centroid_of(&dd, &c, xv.view()));
+        let (ds, dmin, tied) = nearest(metric, &cs, &x);
+        ctx.require(tied.contains(&i), "assign_is_argmin", &class, || format!("index {} at {:?}, minimum {:?} of {:?}", i, ds.get(i), dmin, ds));
+        ctx.require((d - dmin).abs() <= metric.slack(x.len(), dmin), "transform_is_min_rdist", &class, || format!("returned {:?}, minimum {:?}", d, dmin));
+        format!("ok {} {}", i, hxc(d))
     });
+    count_ok(em, before, &[format!("ok:closest:prec={}", F::PREC)]);
 }
 
-fn op_update(em: &mut Em, cs: Vec<Vec<f64>>, x: Vec<Vec<f64>>, mem: Vec<usize>) {
-    let op = format!("update C={} X={} mem={}", show_mat(&cs), show_mat(&x), list(mem.iter(), |v| v.to_string()));
-    em.case_valid(op, "update", |ctx| {
-        let out = rows_of(&hooks::compute_centroids_of(&mat(&cs), &mat(&x), &Array1::from(mem.clone())));
+fn op_update<F: Sc>(em: &mut Em, cs: Vec<Vec<F>>, x: Vec<Vec<F>>, mem: Vec<usize>) {
+    let op = format!("update C={} X={} mem={}{}", show_mat(&cs), show_mat(&x), list(mem.iter(), |v| v.to_string()), prec_tok::<F>());
+    let class = cls::<F>("update".to_string());
+    let before = em.outs.len();
+    em.case_valid(op, &class, |ctx| {
         let p = cs[0].len();
+        let out = rows_of(&hooks::compute_centroids_of(&mat(&cs, p), &mat(&x, p), &Array1::from(mem.clone())));
         for (j, c) in cs.iter().enumerate() {
-            let rows: Vec<&Vec<f64>> = x.iter().zip(&mem).filter(|(_, m)| **m == j).map(|(r, _)| r).collect();
+            let rows: Vec<&Vec<F>> = x.iter().zip(&mem).filter(|(_, m)| **m == j).map(|(r, _)| r).collect();
             for t in 0..p {
-                let want = (rows.iter().map(|r| r[t]).sum::<f64>() + c[t]) / (rows.len() as f64 + 1.0);
-                let got = out[j][t];
-                ctx.require((got - want).abs() <= 1e-12 * want.abs().max(1e-300) * (rows.len() as f64 + 1.0), "update_is_mean_with_old", "update", || format!("cluster {} coordinate {}: {:?}, mean of members and old centroid {:?}", j, t, got, want));
+                let cnt = rows.len() as f64 + 1.0;
+                let want = (rows.iter().map(|r| r[t].to()).sum::<f64>() + c[t].to()) / cnt;
+                // the error of a sum is bounded relative to the sum of the magnitudes, whatever the order
+                let mag = (rows.iter().map(|r| r[t].to().abs()).sum::<f64>() + c[t].to().abs()) / cnt;
+                let got = out[j][t].to();
+                ctx.require((got - want).abs() <= F::rel() * mag + 1e-300, "update_is_mean_with_old", &class, || format!("cluster {} coordinate {}: {:?}, mean of members and old centroid {:?}", j, t, got, want));
             }
         }
         format!("ok {}", show_mat(&out))
     });
+    count_ok(em, before, &[format!("ok:update:prec={}", F::PREC)]);
 }
 
-fn op_fit(em: &mut Em, metric: Metric, d: &Data, init: Vec<Vec<f64>>, ikind: &str, m: u64, tol: f64, q: Vec<Vec<f64>>) {
+#[allow(clippy::too_many_arguments)]
+fn op_fit<F: Sc>(em: &mut Em, metric: Metric, d: &Data<F>, init: Vec<Vec<F>>, ikind: &str, m: u64, tol: F, q: Vec<Vec<F>>, lay_x: Lay, lay_q: Lay, tag: &str) {
     let k = init.len();
-    let op = format!("fit metric={} X={} init={} m={} tol={} Q={}", metric.name(), show_mat(&d.x), show_mat(&init), m, hex64(tol), show_mat(&q));
-    let class = format!("fit:metric={}:runs=1", metric.name());
+    let op = format!("fit metric={} X={} init={} m={} tol={} Q={}{} layx={} layq={}", metric.name(), show_mat(&d.x), show_mat(&init), m, tol.hx(), show_mat(&q), prec_tok::<F>(), lay_x.name(), lay_q.name());
+    let class = cls::<F>(format!("fit:metric={}:runs=1", metric.name()));
     em.count(&format!("fit:data={}", d.kind));
     em.count(&format!("fit:init={}", ikind));
     let x = d.x.clone();
+    let p = d.p();
+    let before = em.outs.len();
     em.case_valid(op, &class, |ctx| {
-        let xa = mat(&x);
-        let qa = if q.is_empty() { Array2::zeros((0, x[0].len())) } else { mat(&q) };
-        let o = fit_api(metric, k, &xa, &qa, &Init::Pre(mat(&init)), 1, m, tol, 0);
+        let xa = mat(&x, p);
+        let qa = qmat(&q, p);
+        let ia = Init::Pre(mat(&init, p));
+        let o = fit_api(&Req { metric, k, x: &xa, q: &qa, init: &ia, runs: 1, m, tol, seed: 0, lay_x, lay_q });
         match &o {
             None => {
                 ctx.fail("fit_succeeds", &class, "fit returned an error on finite data".to_string());
@@ -338,32 +734,50 @@ fn op_fit(em: &mut Em, metric: Metric, d: &Data, init: Vec<Vec<f64>>, ikind: &st
             }
             Some(f) => {
                 oracle_fitted(ctx, &class, metric, k, &x, &q, f, in_bbox(&bbox(&x), &init));
-                format!("ok {} pred={} tr={}", show_fitted(&o), list(f.pred.iter(), |v| v.to_string()), list(f.tr.iter(), |v| hex64c(*v)))
+                if m == 1 {
+                    oracle_first_step(ctx, &class, metric, &x, &init, &f.centroids);
+                }
+                format!(
+                    "ok {} pred={} pred1={} inplace={} tr={}",
+                    show_fitted(&o),
+                    list(f.pred.iter(), |v| v.to_string()),
+                    list(f.pred1.iter(), |v| v.to_string()),
+                    list(f.inplace.iter(), |v| v.to_string()),
+                    list(f.tr.iter(), |v| hxc(*v))
+                )
             }
         }
     });
+    count_ok(em, before, &[format!("ok:fit:prec={}", F::PREC), format!("ok:fit:metric={}", metric.name()), format!("ok:fit:layx={}", lay_x.name()), format!("ok:fit:layq={}", lay_q.name()), format!("ok:fit:data={}", d.kind), format!("ok:fit:{}", tag)]);
 }
 
-fn op_traj(em: &mut Em, metric: Metric, d: &Data, init: Vec<Vec<f64>>, mm: u64, tol: f64) {
+fn op_traj<F: Sc>(em: &mut Em, metric: Metric, d: &Data<F>, init: Vec<Vec<F>>, mm: u64, tol: F, q: Vec<Vec<F>>) {
     let k = init.len();
-    let op = format!("traj metric={} X={} init={} M={} tol={}", metric.name(), show_mat(&d.x), show_mat(&init), mm, hex64(tol));
-    let class = format!("traj:metric={}", metric.name());
+    let op = format!("traj metric={} X={} init={} M={} tol={}{}", metric.name(), show_mat(&d.x), show_mat(&init), mm, tol.hx(), prec_tok::<F>());
+    let class = cls::<F>(format!("traj:metric={}", metric.name()));
     em.count(&format!("traj:data={}", d.kind));
     let x = d.x.clone();
+    let p = d.p();
+    let before = em.outs.len();
+    let stepped = Cell::new(false);
     em.case_valid(op, &class, |ctx| {
-        let xa = mat(&x);
-        let qa = Array2::zeros((0, x[0].len()));
+        let xa = mat(&x, p);
+        let qa = qmat(&q, p);
         let inb = in_bbox(&bbox(&x), &init);
+        let ia = Init::Pre(mat(&init, p));
         let mut parts = vec![];
         let mut prev: Option<(u64, f64)> = None;
         for m in 1..=mm {
-            let o = fit_api(metric, k, &xa, &qa, &Init::Pre(mat(&init)), 1, m, tol, 0);
+            let o = fit_plain(metric, k, &xa, &qa, &ia, 1, m, tol, 0);
             if let Some(f) = &o {
-                oracle_fitted(ctx, &class, metric, k, &x, &[], f, inb);
+                oracle_fitted(ctx, &class, metric, k, &x, &q, f, inb);
+                if m == 1 {
+                    stepped.set(oracle_first_step(ctx, &class, metric, &x, &init, &f.centroids));
+                }
                 let c = cost_of(metric, &f.centroids, &x);
                 if let Some((pm, pc)) = prev {
                     // the cost of the returned centroids never increases when the budget grows
-                    ctx.require(c <= pc * (1.0 + 1e-12) + 1e-300, "cost_antitone_in_budget", &class, || format!("budget {} -> {}: within-cluster cost {:?} -> {:?} (centroids {:?})", pm, m, pc, c, f.centroids));
+                    ctx.require(c <= pc * (1.0 + F::rel()) + 1e-300 + 4.0 * x.len() as f64 * F::tiny().to(), "cost_antitone_in_budget", &class, || format!("budget {} -> {}: within-cluster cost {:?} -> {:?} (centroids {:?})", pm, m, pc, c, f.centroids));
                 }
                 prev = Some((m, c));
             } else {
@@ -373,125 +787,319 @@ fn op_traj(em: &mut Em, metric: Metric, d: &Data, init: Vec<Vec<f64>>, mm: u64, 
         }
         format!("ok {}", parts.join(" "))
     });
+    count_ok(em, before, &[format!("ok:traj:prec={}", F::PREC), format!("ok:traj:metric={}", metric.name())]);
+    if stepped.get() {
+        em.count("ok:first_step_checked");
+    } else {
+        em.count("first_step:tie_skipped");
+    }
 }
 
-fn op_restarts(em: &mut Em, pool: &rayon::ThreadPool, metric: Metric, d: &Data, k: usize, init: Init, rr: usize, m: u64, tol: f64, seed: u64) {
+#[allow(clippy::too_many_arguments)]
+fn op_restarts<F: Sc>(em: &mut Em, pool: &rayon::ThreadPool, metric: Metric, d: &Data<F>, k: usize, init: Init<F>, rr: usize, m: u64, tol: F, seed: u64, q: Vec<Vec<F>>) {
     // the initial matrices are part of the request, so they are computed before the case is registered
-    let xa = mat(&d.x);
-    let inits: Vec<Array2<f64>> = std::panic::catch_unwind(std::panic::AssertUnwindSafe(|| pool.install(|| inits_api(metric, k, &xa, &init, rr, seed)))).unwrap_or_default();
+    let xa = d.arr();
+    let li = init.to_linfa();
+    let inits: Vec<Array2<F>> = catch_unwind(AssertUnwindSafe(|| pool.install(|| inits_api(metric, k, &xa, &li, rr, Xoshiro256Plus::seed_from_u64(seed))))).unwrap_or_default();
     let op = format!(
-        "restarts metric={} X={} inits={} k={} m={} tol={} init={} seed={}",
+        "restarts metric={} X={} inits={} k={} m={} tol={} init={} seed={}{}",
         metric.name(),
         show_mat(&d.x),
         inits.iter().map(|c| show_mat(&rows_of(c))).collect::<Vec<_>>().join("|"),
         k,
         m,
-        hex64(tol),
+        tol.hx(),
         init.name(),
-        seed
+        seed,
+        prec_tok::<F>()
     );
-    let class = format!("restarts:metric={}:init={}", metric.name(), init.name());
+    let class = cls::<F>(format!("restarts:metric={}:init={}", metric.name(), init.name()));
     em.count(&format!("restarts:init={}", init.name()));
     em.count(&format!("restarts:data={}", d.kind));
     let x = d.x.clone();
+    let p = d.p();
+    let before = em.outs.len();
     em.case_valid(op, &class, |ctx| {
-        let qa = Array2::zeros((0, x[0].len()));
+        let qa = qmat(&q, p);
         if inits.len() != rr {
             ctx.fail("no_panic", &class, "the initialiser panicked on data with k <= n".to_string());
             return "panic".to_string();
         }
         for c in &inits {
-            let all_rows = rows_of(c).iter().all(|r| x.iter().any(|d| d.iter().zip(r).all(|(a, b)| a.to_bits() == b.to_bits())));
+            let all_rows = rows_of(c).iter().all(|r| x.iter().any(|d| d.iter().zip(r).all(|(a, b)| a.hx() == b.hx())));
             ctx.require(all_rows && c.nrows() == k, "init_returns_data_rows", &class, || format!("initial centroids {:?} are not {} rows of the data", c, k));
         }
         let mut parts = vec![];
-        let mut prev: Option<f64> = None;
+        let mut prev: Option<F> = None;
         for r in 1..=rr {
-            let cls = format!("{}:runs={}", class, if r == 1 { "1" } else { "multi" });
-            let o = pool.install(|| fit_api(metric, k, &xa, &qa, &init, r, m, tol, seed));
+            let cl = format!("{}:runs={}", class, if r == 1 { "1" } else { "multi" });
+            let o = pool.install(|| fit_plain(metric, k, &xa, &qa, &init, r, m, tol, seed));
             if let Some(f) = &o {
-                oracle_fitted(ctx, &cls, metric, k, &x, &[], f, true);
+                oracle_fitted(ctx, &cl, metric, k, &x, &q, f, true);
                 if let Some(pi) = prev {
-                    ctx.require(f.inertia <= pi, "more_restarts_not_worse", &cls, || format!("n_runs {} -> {}: reported inertia {:?} -> {:?}", r - 1, r, pi, f.inertia));
+                    ctx.require(f.inertia <= pi, "more_restarts_not_worse", &cl, || format!("n_runs {} -> {}: reported inertia {:?} -> {:?}", r - 1, r, pi, f.inertia));
                 }
                 prev = Some(f.inertia);
             } else {
-                ctx.fail("fit_succeeds", &cls, format!("fit with n_runs {} returned an error", r));
+                ctx.fail("fit_succeeds", &cl, format!("fit with n_runs {} returned an error", r));
             }
             parts.push(format!("r={} {}", r, show_fitted(&o)));
         }
         format!("ok {}", parts.join(" "))
     });
+    count_ok(em, before, &[format!("ok:restarts:prec={}", F::PREC), format!("ok:restarts:init={}", init.name())]);
 }
 
-/// f32 records: oracle only (the driver models f64)
-fn op_f32(em: &mut Em, metric: Metric, d: &Data, k: usize, init: Init, runs: usize, m: u64, seed: u64) {
-    let op = format!("#f32 metric={} n={} k={} init={} runs={} m={} seed={} kind={}", metric.name(), d.x.len(), k, init.name(), runs, m, seed, d.kind);
-    let class = format!("f32:metric={}:runs={}", metric.name(), if runs == 1 { "1" } else { "multi" });
-    let x32: Vec<Vec<f32>> = d.x.iter().map(|r| r.iter().map(|v| *v as f32).collect()).collect();
+/// "the within-cluster cost of the returned centroids never increases when the iteration budget grows",
+/// with restarts: `n_runs = rr` from a fixed seed, budgets `ms` (ascending); the initial matrices of the
+/// restarts do not depend on the budget and are observed through the hook
+#[allow(clippy::too_many_arguments)]
+fn op_sweep<F: Sc>(em: &mut Em, pool: &rayon::ThreadPool, metric: Metric, d: &Data<F>, k: usize, init: Init<F>, rr: usize, ms: Vec<u64>, tol: F, seed: u64, q: Vec<Vec<F>>) {
+    let xa = d.arr();
+    let li = init.to_linfa();
+    let inits: Vec<Array2<F>> = catch_unwind(AssertUnwindSafe(|| pool.install(|| inits_api(metric, k, &xa, &li, rr, Xoshiro256Plus::seed_from_u64(seed))))).unwrap_or_default();
+    let op = format!(
+        "sweep metric={} X={} inits={} k={} ms={} tol={} init={} seed={}{}",
+        metric.name(),
+        show_mat(&d.x),
+        inits.iter().map(|c| show_mat(&rows_of(c))).collect::<Vec<_>>().join("|"),
+        k,
+        list(ms.iter(), |m| m.to_string()),
+        tol.hx(),
+        init.name(),
+        seed,
+        prec_tok::<F>()
+    );
+    let class = cls::<F>(format!("sweep:metric={}:init={}:runs={}", metric.name(), init.name(), if rr == 1 { "1" } else { "multi" }));
+    em.count(&format!("sweep:init={}", init.name()));
+    em.count(&format!("sweep:data={}", d.kind));
+    let x = d.x.clone();
+    let p = d.p();
+    let before = em.outs.len();
     em.case_valid(op, &class, |ctx| {
-        let n = x32.len();
-        let p = x32[0].len();
-        let xa = Array2::from_shape_fn((n, p), |(i, j)| x32[i][j]);
+        let qa = qmat(&q, p);
+        if inits.len() != rr {
+            ctx.fail("no_panic", &class, "the initialiser panicked on data with k <= n".to_string());
+            return "panic".to_string();
+        }
+        let inb = inits.iter().all(|c| in_bbox(&bbox(&x), &rows_of(c)));
+        let mut parts = vec![];
+        let mut prev: Option<(u64, f64, F)> = None;
+        for m in &ms {
+            let o = pool.install(|| fit_plain(metric, k, &xa, &qa, &init, rr, *m, tol, seed));
+            if let Some(f) = &o {
+                oracle_fitted(ctx, &class, metric, k, &x, &q, f, inb);
+                let c = cost_of(metric, &f.centroids, &x);
+                if let Some((pm, pc, pi)) = prev {
+                    ctx.require(c <= pc * (1.0 + F::rel()) + 1e-300 + 4.0 * x.len() as f64 * F::tiny().to(), "cost_antitone_in_budget", &class, || {
+                        format!("n_runs={} seed={} init={}: budget {} -> {}: within-cluster cost of the returned centroids {:?} -> {:?} (centroids {:?})", rr, seed, init.name(), pm, m, pc, c, f.centroids)
+                    });
+                    ctx.require(f.inertia.to() <= pi.to() * (1.0 + F::rel()) + 1e-300 + 16.0 * F::tiny().to(), "cost_antitone_in_budget", &class, || format!("n_runs={} seed={} init={}: budget {} -> {}: reported inertia {:?} -> {:?}", rr, seed, init.name(), pm, m, pi, f.inertia));
+                }
+                prev = Some((*m, c, f.inertia));
+            } else {
+                ctx.fail("fit_succeeds", &class, format!("fit with budget {} and n_runs {} returned an error", m, rr));
+            }
+            parts.push(format!("m={} {}", m, show_fitted(&o)));
+        }
+        format!("ok {}", parts.join(" "))
+    });
+    count_ok(em, before, &[format!("ok:sweep:prec={}", F::PREC), format!("ok:sweep:init={}", init.name()), format!("ok:sweep:metric={}", metric.name())]);
+}
+
+/// the constructors `KMeans::params(k)` / `KMeans::params_with_rng(k, rng)` with nothing else set: the
+/// hyper-parameters the fit will use are read back from the checked parameter set (whatever the defaults
+/// are), the initial matrices come from the hook with the caller's rng (`params_with_rng`) or with the
+/// rng the parameter set holds (`params`)
+fn op_defaults<F: Sc>(em: &mut Em, pool: &rayon::ThreadPool, d: &Data<F>, k: usize, with_rng: bool, seed: u64) {
+    let xa = d.arr();
+    let x = d.x.clone();
+    let p = d.p();
+    let metric = Metric::L2;
+    let form = if with_rng { "params_with_rng" } else { "params" };
+    // read the effective hyper-parameters
+    let (runs, m, tol, li, rng0) = if with_rng {
+        let pr = KMeans::<F, L2Dist>::params_with_rng(k, Xoshiro256Plus::seed_from_u64(seed));
+        let v = pr.check_ref().expect("default hyper-parameters are valid");
+        (v.n_runs(), v.max_n_iterations(), v.tolerance(), v.init_method().clone(), Xoshiro256Plus::seed_from_u64(seed))
+    } else {
+        let pr = KMeans::<F, L2Dist>::params(k);
+        let v = pr.check_ref().expect("default hyper-parameters are valid");
+        (v.n_runs(), v.max_n_iterations(), v.tolerance(), v.init_method().clone(), v.rng().clone())
+    };
+    let inits: Vec<Array2<F>> = catch_unwind(AssertUnwindSafe(|| pool.install(|| inits_api(metric, k, &xa, &li, runs, rng0)))).unwrap_or_default();
+    let op = format!(
+        "sweep metric=l2 X={} inits={} k={} ms={} tol={} init={} form={} seed={}{}",
+        show_mat(&d.x),
+        inits.iter().map(|c| show_mat(&rows_of(c))).collect::<Vec<_>>().join("|"),
+        k,
+        m,
+        tol.hx(),
+        init_name(&li),
+        form,
+        seed,
+        prec_tok::<F>()
+    );
+    let class = cls::<F>(format!("defaults:form={}", form));
+    let before = em.outs.len();
+    em.case_valid(op, &class, |ctx| {
+        if inits.len() != runs {
+            ctx.fail("no_panic", &class, "the initialiser panicked on data with k <= n".to_string());
+            return "panic".to_string();
+        }
         let ds = DatasetBase::from(xa.clone());
-        let li: KMeansInit<f32> = match &init {
-            Init::Random => KMeansInit::Random,
-            Init::Kpp => KMeansInit::KMeansPlusPlus,
-            _ => KMeansInit::KMeansPara,
-        };
-        fn go<D: Distance<f32>>(dist: D, k: usize, ds: &DatasetBase<Array2<f32>, Array1<()>>, li: KMeansInit<f32>, runs: usize, m: u64, seed: u64, xa: &Array2<f32>) -> Option<(Array2<f32>, Vec<f32>, f32, Vec<usize>, Vec<f32>)> {
-            let model = KMeans::params_with(k, Xoshiro256Plus::seed_from_u64(seed), dist).n_runs(runs).max_n_iterations(m).init_method(li).fit(ds).ok()?;
-            let pred: Array1<usize> = model.predict(xa);
-            let tr: Array1<f32> = model.transform(xa);
-            Some((model.centroids().clone(), model.cluster_count().to_vec(), model.inertia(), pred.to_vec(), tr.to_vec()))
+        let model = pool.install(|| if with_rng { KMeans::<F, L2Dist>::params_with_rng(k, Xoshiro256Plus::seed_from_u64(seed)).fit(&ds) } else { KMeans::<F, L2Dist>::params(k).fit(&ds) });
+        let o = model.ok().map(|mo| observe(&mo, &xa, &Array2::zeros((0, p)), Lay::C));
+        match &o {
+            Some(f) => oracle_fitted(ctx, &class, metric, k, &x, &[], f, true),
+            None => ctx.fail("fit_succeeds", &class, "fit with default hyper-parameters returned an error".to_string()),
         }
-        let r = match metric {
-            Metric::L2 => go(L2Dist, k, &ds, li, runs, m, seed, &xa),
-            Metric::L1 => go(L1Dist, k, &ds, li, runs, m, seed, &xa),
-            Metric::Linf => go(LInfDist, k, &ds, li, runs, m, seed, &xa),
-        };
-        let (c, counts, inertia, pred, tr) = match r {
-            Some(t) => t,
-            None => {
-                ctx.fail("fit_succeeds", &class, "fit returned an error on finite data".to_string());
-                return "-".to_string();
+        format!("ok m={} {}", m, show_fitted(&o))
+    });
+    count_ok(em, before, &[format!("ok:defaults:{}:prec={}", form, F::PREC)]);
+}
+
+/// `LpDist(p)`: oracle only (its distance goes through libm `powf`, which the model does not have)
+fn op_lp(em: &mut Em, d: &Data<f64>, pw: f64, init: Vec<Vec<f64>>, m: u64, q: Vec<Vec<f64>>) {
+    let metric = Metric::Lp(pw);
+    let k = init.len();
+    let op = format!("#lp metric={} X={} init={} m={} Q={}", metric.name(), show_mat(&d.x), show_mat(&init), m, show_mat(&q));
+    let class = format!("lp:metric={}", metric.name());
+    let x = d.x.clone();
+    let p = d.p();
+    let okf = Cell::new(false);
+    em.case_valid(op, &class, |ctx| {
+        let xa = mat(&x, p);
+        let qa = qmat(&q, p);
+        let ia = Init::Pre(mat(&init, p));
+        match fit_plain(metric, k, &xa, &qa, &ia, 1, m, 1e-4, 0) {
+            None => ctx.fail("fit_succeeds", &class, "fit returned an error on finite data".to_string()),
+            Some(f) => {
+                oracle_fitted(ctx, &class, metric, k, &x, &q, &f, in_bbox(&bbox(&x), &init));
+                okf.set(true);
             }
-        };
-        ctx.require(c.nrows() == k && c.ncols() == p && c.iter().all(|v| v.is_finite()), "k_centroids_dim", &class, || format!("centroids {:?}", c));
-        let rd = |a: &[f32], b: &[f32]| -> f32 {
-            match metric {
-                Metric::L2 => a.iter().zip(b).fold(0.0, |s, (x, y)| s + (x - y) * (x - y)),
-                Metric::L1 => a.iter().zip(b).fold(0.0, |s, (x, y)| s + (x - y).abs()),
-                Metric::Linf => a.iter().zip(b).fold(0.0, |s: f32, (x, y)| if (x - y).abs() > s { (x - y).abs() } else { s }),
-            }
-        };
-        let crow: Vec<Vec<f32>> = c.rows().into_iter().map(|r| r.to_vec()).collect();
-        let mut recount = vec![0.0f32; k];
-        let mut tot = 0.0f64;
-        for i in 0..n {
-            let dsv: Vec<f32> = crow.iter().map(|cc| rd(cc, &x32[i])).collect();
-            let dmin = dsv.iter().cloned().fold(f32::INFINITY, f32::min);
-            ctx.require(pred[i] < k && dsv[pred[i]] <= dmin, "assign_is_argmin", &class, || format!("row {}: assigned {} of {:?}", i, pred[i], dsv));
-            ctx.require(tr[i] == dmin, "transform_is_min_rdist", &class, || format!("row {}: transform {:?}, minimum {:?}", i, tr[i], dmin));
-            if pred[i] < k {
-                recount[pred[i]] += 1.0;
-            }
-            tot += dmin as f64;
         }
-        for j in 0..p {
-            let (lo, hi) = x32.iter().fold((f32::INFINITY, f32::NEG_INFINITY), |(lo, hi), r| (lo.min(r[j]), hi.max(r[j])));
-            let slack = 1e-5 * lo.abs().max(hi.abs()) + 1e-30;
-            ctx.require(crow.iter().all(|r| r[j] >= lo - slack && r[j] <= hi + slack), "centroids_in_bbox", &class, || format!("coordinate {}: centroids {:?}, data range [{:?}, {:?}]", j, crow, lo, hi));
-        }
-        ctx.require(counts.iter().sum::<f32>() == n as f32, "counts_sum_n", &class, || format!("cluster_count {:?} for n={}", counts, n));
-        ctx.require(counts == recount, "counts_describe_returned", &class, || format!("cluster_count {:?}, but the returned centroids assign {:?}", counts, recount));
-        let want = tot / n as f64;
-        ctx.require((inertia as f64 - want).abs() <= 1e-4 * want.abs().max(inertia.abs() as f64) + 1e-30, "inertia_describes_returned", &class, || format!("inertia {:?}, but the returned centroids have mean minimal distance {:?}", inertia, want));
         "-".to_string()
     });
+    if okf.get() {
+        em.count("ok:lp");
+    }
 }
 
 // ------------------------------------------------------------------------------ run
+
+fn run_prec<F: Sc>(em: &mut Em, rng: &mut Rng, pool: &rayon::ThreadPool, share: usize) {
+    let big = em.thorough();
+    let scale = if big { 12 } else { 1 };
+    let cnt = |base: usize| (base * scale * share / 4).max(1);
+    let metrics = METRICS;
+
+    // closest: random, lattice and generic
+    for _ in 0..cnt(300) {
+        let d = gen_data::<F>(rng, big, 1);
+        let k = 1 + rng.below(5);
+        let (cs, _) = gen_init(rng, &d, k);
+        let q = gen_queries(rng, &d, &cs);
+        let x = if q.is_empty() { d.x[0].clone() } else { q[0].clone() };
+        op_closest(em, *rng.pick(&metrics), cs, x);
+    }
+    // update: arbitrary memberships (not only nearest ones), empty clusters included
+    for _ in 0..cnt(300) {
+        let d = gen_data::<F>(rng, big, 1);
+        let k = 1 + rng.below(4);
+        let (cs, _) = gen_init(rng, &d, k);
+        let used = 1 + rng.below(k);
+        let mem: Vec<usize> = (0..d.x.len()).map(|_| rng.below(used)).collect();
+        op_update(em, cs, d.x.clone(), mem);
+    }
+    // fit from a precomputed matrix in every memory layout, every calling form of predict / transform on
+    // training and new rows
+    for i in 0..cnt(800) {
+        let size = if i % 8 == 7 { 2 } else { 1 };
+        let d = gen_data::<F>(rng, big, size);
+        let k = gen_k(rng, &d, size);
+        let (init, ikind) = gen_init(rng, &d, k);
+        let q = gen_queries(rng, &d, &init);
+        let m = 1 + rng.below(if big { 12 } else { 6 }) as u64;
+        let metric = *rng.pick(&metrics);
+        let mut tol: F = gen_tol(rng);
+        let lay_x = if rng.chance(1, 2) { Lay::C } else { *rng.pick(&LAYS) };
+        let lay_q = if rng.chance(1, 2) { Lay::C } else { *rng.pick(&LAYS) };
+        if rng.chance(1, 4) {
+            // tolerance exactly on the shift of the first iteration: `distance < tolerance` is then
+            // false by equality and the loop must go on
+            let c0 = mat(&init, d.p());
+            let xa = d.arr();
+            let first = catch_unwind(AssertUnwindSafe(|| fit_plain(metric, k, &xa, &Array2::zeros((0, d.p())), &Init::Pre(c0.clone()), 1, 1, F::of(1e-4), 0))).unwrap_or(None);
+            if let Some(f) = first {
+                let shift = mdist(metric, &c0, &mat(&f.centroids, d.p()));
+                if shift > F::zero() && shift.is_finite() {
+                    tol = shift;
+                    em.count("fit:tol=first_shift_exactly");
+                }
+            }
+        }
+        op_fit(em, metric, &d, init, ikind, m, tol, q, lay_x, lay_q, if size == 2 { "size=wide" } else { "size=normal" });
+    }
+    // long budgets: one point at 0, one centroid far away, a tolerance only an exactly-zero shift meets:
+    // the centroid halves its distance once per iteration, so the iteration counter is what stops the loop
+    for m in [255u64, 256, 257, 260] {
+        for metric in metrics {
+            let d = Data { x: vec![vec![F::zero()]], kind: "long" };
+            op_fit(em, metric, &d, vec![vec![F::long_start()]], "long", m, F::tiny(), vec![], Lay::C, Lay::C, "budget>=255");
+        }
+    }
+    // trajectories
+    for _ in 0..cnt(300) {
+        let d = gen_data::<F>(rng, big, 1);
+        let k = gen_k(rng, &d, 1);
+        let (init, _) = gen_init(rng, &d, k);
+        let q = gen_queries(rng, &d, &init);
+        let mm = 2 + rng.below(if big { 10 } else { 5 }) as u64;
+        let metric = if rng.chance(1, 2) { Metric::L2 } else { *rng.pick(&metrics) };
+        op_traj(em, metric, &d, init, mm, F::of(*rng.pick(&[1e-4, 1e-9, 1e-2])), q);
+    }
+    // restarts with the random initialisers
+    for _ in 0..cnt(300) {
+        let d = gen_data::<F>(rng, big, 1);
+        let k = gen_k(rng, &d, 1);
+        let init = rng.pick(&[Init::Random, Init::Kpp, Init::Para]).clone();
+        let rr = 2 + rng.below(if big { 7 } else { 4 });
+        let m = 1 + rng.below(6) as u64;
+        let seed = rng.next() % 1000;
+        let q = gen_queries(rng, &d, &d.x[..1]);
+        let metric = *rng.pick(&metrics);
+        op_restarts(em, pool, metric, &d, k, init, rr, m, gen_tol(rng), seed, q);
+    }
+    // budget sweeps with restarts (n_runs >= 2, randomised initialiser, fixed seed; also the same
+    // precomputed matrix for every restart): mostly overlapping data with more rows, where a later
+    // restart is often the better one and the tolerance is met somewhere inside the swept range
+    for i in 0..cnt(300) {
+        let size = if i % 3 == 0 { 1 } else { 2 };
+        let mut d = gen_data::<F>(rng, big, size);
+        if i % 2 == 0 {
+            // overlapping cloud, 12..40 rows, 2 features
+            let n = 12 + rng.below(29);
+            d = Data { x: (0..n).map(|_| (0..2).map(|_| F::of(2.0 * rng.unit() - 1.0)).collect()).collect(), kind: "cloud" };
+        }
+        let k = if d.kind == "cloud" { (2 + rng.below(4)).min(d.x.len()) } else { gen_k(rng, &d, size) };
+        let init = if rng.chance(1, 10) { Init::Pre(mat(&gen_init(rng, &d, k).0, d.p())) } else { rng.pick(&[Init::Random, Init::Random, Init::Kpp, Init::Para]).clone() };
+        let rr = 2 + rng.below(3);
+        let mm = 4 + rng.below(if big { 12 } else { 9 }) as u64;
+        let seed = rng.next() % 1000;
+        let metric = if rng.chance(3, 4) { Metric::L2 } else { *rng.pick(&metrics) };
+        let tol = F::of(*rng.pick(&[1e-4, 1e-4, 1e-2, 1e-1, 1e-9]));
+        let q = gen_queries(rng, &d, &d.x[..1]);
+        op_sweep(em, pool, metric, &d, k, init, rr, (1..=mm).collect(), tol, seed, q);
+    }
+    // the constructors with default hyper-parameters
+    for i in 0..cnt(24) {
+        let d = gen_data::<F>(rng, big, 1);
+        let k = gen_k(rng, &d, 1);
+        let seed = rng.next() % 1000;
+        op_defaults(em, pool, &d, k, i % 2 == 0, seed);
+    }
+}
 
 pub fn run(em: &mut Em, rng: &mut Rng) {
     let big = em.thorough();
@@ -500,13 +1108,13 @@ pub fn run(em: &mut Em, rng: &mut Rng) {
 
     // the 1-D witness of DESIGN section 7 / 8 #7 first: {0,0,10}, one centroid at 0
     for metric in METRICS {
-        let d = Data { x: vec![vec![0.0], vec![0.0], vec![10.0]], kind: "witness" };
-        op_traj(em, metric, &d, vec![vec![0.0]], 4, 1e-4);
+        let d = Data { x: vec![vec![0.0f64], vec![0.0], vec![10.0]], kind: "witness" };
+        op_traj(em, metric, &d, vec![vec![0.0]], 4, 1e-4, vec![]);
     }
 
     // closest: exhaustive on a small 1-D lattice (ties and duplicated centroids everywhere)
-    let vals = [-1.0, 0.0, 1.0];
-    let xs = [-1.0, -0.5, 0.0, 0.5, 1.0];
+    let vals = [-1.0f64, 0.0, 1.0];
+    let xs = [-1.0f64, -0.5, 0.0, 0.5, 1.0];
     for metric in METRICS {
         for k in 1..=3usize {
             for code in 0..3usize.pow(k as u32) {
@@ -517,80 +1125,20 @@ pub fn run(em: &mut Em, rng: &mut Rng) {
             }
         }
     }
-    // closest: random, lattice and generic
-    for _ in 0..300 * scale {
-        let d = gen_data(rng, big);
-        let k = 1 + rng.below(5);
-        let (cs, _) = gen_init(rng, &d, k);
-        let q = gen_queries(rng, &d, &cs);
-        let x = if q.is_empty() { d.x[0].clone() } else { q[0].clone() };
-        op_closest(em, *rng.pick(&METRICS), cs, x);
-    }
-    // update: arbitrary memberships (not only nearest ones), empty clusters included
-    for _ in 0..300 * scale {
-        let d = gen_data(rng, big);
-        let k = 1 + rng.below(4);
-        let (cs, _) = gen_init(rng, &d, k);
-        let used = 1 + rng.below(k);
-        let mem: Vec<usize> = (0..d.x.len()).map(|_| rng.below(used)).collect();
-        op_update(em, cs, d.x.clone(), mem);
-    }
-    // fit from a precomputed matrix, predict / transform on training and new rows
-    for _ in 0..800 * scale {
-        let d = gen_data(rng, big);
-        let k = gen_k(rng, &d);
-        let (init, ikind) = gen_init(rng, &d, k);
-        let q = gen_queries(rng, &d, &init);
-        let m = 1 + rng.below(if big { 12 } else { 6 }) as u64;
-        let metric = *rng.pick(&METRICS);
-        let mut tol = gen_tol(rng);
-        if rng.chance(1, 4) {
-            // tolerance exactly on the shift of the first iteration: `distance < tolerance` is then
-            // false by equality and the loop must go on
-            let c0 = mat(&init);
-            let first = std::panic::catch_unwind(std::panic::AssertUnwindSafe(|| fit_api(metric, k, &mat(&d.x), &Array2::zeros((0, d.x[0].len())), &Init::Pre(c0.clone()), 1, 1, 1e-4, 0))).unwrap_or(None);
-            if let Some(f) = first {
-                let a: Vec<f64> = init.iter().flatten().cloned().collect();
-                let b: Vec<f64> = f.centroids.iter().flatten().cloned().collect();
-                let shift = match metric {
-                    Metric::L2 => metric.rd(&a, &b).sqrt(),
-                    _ => metric.rd(&a, &b),
-                };
-                if shift > 0.0 && shift.is_finite() {
-                    tol = shift;
-                    em.count("fit:tol=first_shift_exactly");
-                }
-            }
+    // three quarters of the generated cases in f64, one quarter in f32
+    run_prec::<f64>(em, rng, &pool, 3);
+    run_prec::<f32>(em, rng, &pool, 1);
+
+    // LpDist: oracle only
+    for _ in 0..60 * scale {
+        let d = gen_data::<f64>(rng, big, 1);
+        if d.kind == "extreme" {
+            continue; // powf of the extreme magnitudes leaves the range
         }
-        op_fit(em, metric, &d, init, ikind, m, tol, q);
-    }
-    // trajectories
-    for _ in 0..300 * scale {
-        let d = gen_data(rng, big);
-        let k = gen_k(rng, &d);
+        let k = gen_k(rng, &d, 1);
         let (init, _) = gen_init(rng, &d, k);
-        let mm = 2 + rng.below(if big { 10 } else { 5 }) as u64;
-        let metric = if rng.chance(1, 2) { Metric::L2 } else { *rng.pick(&METRICS) };
-        op_traj(em, metric, &d, init, mm, *rng.pick(&[1e-4, 1e-9, 1e-2]));
-    }
-    // restarts with the random initialisers
-    for _ in 0..300 * scale {
-        let d = gen_data(rng, big);
-        let k = gen_k(rng, &d);
-        let init = rng.pick(&[Init::Random, Init::Kpp, Init::Para]).clone();
-        let rr = 2 + rng.below(if big { 7 } else { 4 });
+        let q = gen_queries(rng, &d, &init);
         let m = 1 + rng.below(6) as u64;
-        let seed = rng.next() % 1000;
-        op_restarts(em, &pool, *rng.pick(&METRICS), &d, k, init, rr, m, gen_tol(rng), seed);
-    }
-    // f32
-    for _ in 0..80 * scale {
-        let d = gen_data(rng, big);
-        let k = gen_k(rng, &d);
-        let init = rng.pick(&[Init::Random, Init::Kpp, Init::Para]).clone();
-        let runs = 1 + rng.below(4);
-        let m = 1 + rng.below(8) as u64;
-        let seed = rng.next() % 1000;
-        op_f32(em, *rng.pick(&METRICS), &d, k, init, runs, m, seed);
+        op_lp(em, &d, *rng.pick(&[1.5, 3.0, 4.0]), init, m, q);
     }
 }
